@@ -27,8 +27,9 @@ pub fn rule_breakers(thorough: bool, seed: u64) -> Vec<(Vec<u8>, String)> {
     let mut res = vec![];
     let n = if thorough { 8000 } else { 1500 };
     for _ in 0..n {
-        let which = r.below(6);
-        let (kind, rule) = match which { 0 => (24, "loc-version"), 1 => (27, "svcb-keys"), 2 => (28, "svcb-keys"), 3 => (38, "nsec-windows"), 4 => (13, "charstr-overrun"), _ => (*r.pick(&[27usize, 38, 10, 19, 21, 26]), "inner-overrun") };
+        let which = r.below(7);
+        let ipseckey = crate::gen::KIND_NAMES.iter().position(|k| *k == "IPSECKEY").unwrap();
+        let (kind, rule) = match which { 6 => (ipseckey, "ipseckey-gateway-type"), 0 => (24, "loc-version"), 1 => (27, "svcb-keys"), 2 => (28, "svcb-keys"), 3 => (38, "nsec-windows"), 4 => (13, "charstr-overrun"), _ => (*r.pick(&[27usize, 38, 10, 19, 21, 26]), "inner-overrun") };
         let rd = g.rdata(kind);
         let rr = ResourceRecord::new(Name::new_unchecked("t"), CLASS::IN, 5, rd);
         let (mut b, _) = refenc::encode_packet(&packet_text(&text::rr(&rr)), Compress::Never, false, None);
@@ -37,6 +38,8 @@ pub fn rule_breakers(thorough: bool, seed: u64) -> Vec<(Vec<u8>, String)> {
         let (s, l) = (e.rd_start, e.rd_len);
         let mutated = match rule {
             "loc-version" => { b[s] = r.range(1, 255) as u8; true }
+            // RFC 4025 2.3: gateway types 0..3 are defined; a record of another type cannot be interpreted (nor re-emitted)
+            "ipseckey-gateway-type" => { if l >= 3 { b[s + 1] = r.range(4, 255) as u8; true } else { false } }
             "svcb-keys" | "nsec-windows" => {
                 // the (key, length, value) triples after the name: some key (the second, the third, ... the last)
                 // is made equal to the one before it, or one less (so that it may still exceed the FIRST key)
